@@ -125,7 +125,9 @@ class Repr(Slice):
 
     def gen(self, rng, index, tier):
         n = ALL[index % len(ALL)]
-        addr = 4 * rng.choice([0, 0, 1, 2, 7, 100, rng.randrange(0, 100)] + ([1000, rng.randrange(0, 1000)] if tier == "thorough" else []))
+        addr = 4 * rng.choice([0, 0, 1, 2, 7, 100, rng.randrange(0, 100)])
+        if tier == "thorough" and rng.random() < 0.04:      # far addresses are expensive (1 ms per preceding nop and load)
+            addr = 4 * rng.choice([1000, rng.randrange(0, 1000)])
         t = rnd_instr(rng, n)
         if fmt_kind(n) == "J":
             t[3] = t[2] + addr
